@@ -36,6 +36,9 @@ func allocNow() uint64 {
 	return 0
 }
 
+// CPUNow is the process CPU time (user + system) consumed so far.
+func CPUNow() time.Duration { return cpuNow() }
+
 func cpuNow() time.Duration {
 	var ru syscall.Rusage
 	if err := syscall.Getrusage(syscall.RUSAGE_SELF, &ru); err != nil {
